@@ -2,6 +2,7 @@ package conf
 
 import (
 	"fmt"
+	"math"
 	"reflect"
 	"strconv"
 	"time"
@@ -95,6 +96,10 @@ var DefaultCoercers = struct {
 			}
 			return convVal, nil
 		case float64:
+			// int(v) is implementation-defined for NaN, Inf and values outside the int range
+			if math.IsNaN(v) || v < math.MinInt || v >= -float64(math.MinInt) {
+				return nil, fmt.Errorf("failed to coerce float64 to int: %v is out of range", v)
+			}
 			return int(v), nil
 		case bool:
 			if v {
